@@ -2,6 +2,7 @@ import CM.Lib.Wire
 import CM.Model.Cache
 import CM.Model.Lookup
 import CM.Proofs.Lookup
+import CM.Generated.Fn
 /-!
 Driver handler for C03.
 
@@ -175,9 +176,12 @@ def handle (args impl : List String) : String :=
     match decStr subj, decStr wild with
     | some n, some w =>
       if !(n.all (fun c => c.toNat < 128) && w.all (fun c => c.toNat < 128)) then reply "*" "-" "" else
+      -- the definition the function translator printed from the source on this run (CM/Generated/Fn)
+      let g := CM.Gen.Fn.MatchWildcard n w
       let n := n.map lowerASCII
       let w := w.map lowerASCII
       let m := matchWildcard n w
+      if CM.Gen.Fn.translated.contains "MatchWildcard" && g != m then reply "translated-definition-differs-from-model" "-" "!" else
       let ref := n == w || (candidates n).contains w
       let noEmpty := (splitDot n).all (fun l => !l.isEmpty)
       let spec := match impl with
